@@ -481,6 +481,8 @@ structure Sim (c : Core) (s : SState) : Prop where
   /-- (I4) -/
   lkName : ∀ n, c.levelsLookup.lookup (LKey.name n) = c.levels.lookup n
   lkInt : ∀ i no, c.levelsLookup.lookup (LKey.int i) = some no → 0 ≤ i ∧ no = i
+  /-- (I6) every colourising handler holds a pre-colourised format for every existing level name -/
+  pcInv : ∀ e ∈ c.precolorized, ∀ n, (c.levels.lookup n).isSome = true → n ∈ e.2
 
 theorem lookup_map_name (l : List (Str × Int)) (n : Str) :
     (l.map (fun x => (LKey.name x.1, x.2))).lookup (LKey.name n) = l.lookup n := by
@@ -515,6 +517,7 @@ theorem sim_init : Sim Core.init SState.init where
     simp only [Core.init] at h
     rw [lookup_map_int] at h
     cases h
+  pcInv := fun e he => by simp [Core.init] at he
 
 theorem mem_of_lookup {α β : Type} [BEq α] [LawfulBEq α] {l : List (α × β)} {k : α} {v : β}
     (h : l.lookup k = some v) : (k, v) ∈ l := by
@@ -544,15 +547,33 @@ theorem filterMap_ite {α β : Type} (p : α → Bool) (f : α → β) (l : List
     · simp [h, ih]
     · simp [h, ih]
 
-theorem emitAll_eq (orc : Oracle) {c : Core} {s : SState} (h : c.handlers = s.regs) (no : Int) (M : Option Str) :
-    emitAll orc c no M = deliverS orc s no M := by
+/-- the level id `_log` hands to `emit` names an existing level -/
+def LidOk (c : Core) (lid : Option Str) : Prop := ∀ n, lid = some n → (c.levels.lookup n).isSome = true
+
+theorem precolorOk_true {c : Core} (hpc : ∀ e ∈ c.precolorized, ∀ n, (c.levels.lookup n).isSome = true → n ∈ e.2)
+    {lid : Option Str} (hl : LidOk c lid) (id : Nat) : precolorOk c id lid = true := by
+  cases lid with
+  | none => rfl
+  | some n =>
+    unfold precolorOk
+    cases hk : c.precolorized.lookup id with
+    | none => rfl
+    | some ks =>
+      have hm := mem_of_lookup hk
+      have := hpc _ hm n (hl n rfl)
+      simpa using this
+
+theorem emitAll_eq (orc : Oracle) {c : Core} {s : SState} (h : c.handlers = s.regs)
+    (hpc : ∀ e ∈ c.precolorized, ∀ n, (c.levels.lookup n).isSome = true → n ∈ e.2)
+    {lid : Option Str} (hl : LidOk c lid) (no : Int) (M : Option Str) :
+    emitAll orc c lid no M = deliverS orc s no M := by
   unfold emitAll deliverS
   rw [h]
-  rw [filterMap_ite (fun h : Nat × Handler => gate orc h.2 no M) (fun h => h.1) s.regs]
+  rw [filterMap_ite (fun h : Nat × Handler => gate orc h.2 no M && precolorOk c h.1 lid) (fun h => h.1) s.regs]
   congr 1
   congr 1
   funext x
-  simp only [gate, handlerPasses_eq]
+  simp only [gate, handlerPasses_eq, precolorOk_true hpc hl, Bool.and_true]
 
 theorem enabledS_cons_some (p : Str) (st : Bool) (acts : List (Option Str × Bool)) (M : Str) :
     enabledS ((some p, st) :: acts) (some M) = if dotted '.' p <+: M ++ ['.'] then st else enabledS acts (some M) := by
@@ -565,29 +586,34 @@ theorem enabledS_cons_some (p : Str) (st : Bool) (acts : List (Option Str × Boo
 theorem resolveLevel_sim {c : Core} {s : SState} (h : Sim c s) (lv : LevelArg) :
     match resolveLevel c lv with
     | .error e => levelNoS s.levels lv = .error e
-    | .ok r => levelNoS s.levels lv = .ok r.2 ∧ Sim r.1 s := by
+    | .ok r => levelNoS s.levels lv = .ok r.2.2 ∧ Sim r.1 s ∧ LidOk r.1 r.2.1 := by
   cases lv with
   | bad => simp [resolveLevel, levelNoS]
   | name n =>
     simp only [resolveLevel, levelNoS, getLevel]
     rw [h.lkName n, h.levels]
-    cases s.levels.lookup n with
+    cases hsl : s.levels.lookup n with
     | none => simp
-    | some no => exact ⟨rfl, h⟩
+    | some no =>
+      refine ⟨rfl, h, ?_⟩
+      intro m hm
+      simp only [Option.some.injEq] at hm
+      subst hm
+      rw [h.levels, hsl]; rfl
   | int i =>
     simp only [resolveLevel, levelNoS]
     cases hl : c.levelsLookup.lookup (LKey.int i) with
     | some no =>
       obtain ⟨h0, rfl⟩ := h.lkInt i no hl
       simp only
-      refine ⟨?_, h⟩
+      refine ⟨?_, h, fun m hm => by cases hm⟩
       rw [if_neg (by omega)]
     | none =>
       simp only [Gen.logRejectsInt, Gen.intLevelNo, decide_eq_true_eq]
       by_cases hi : i < 0
       · simp [hi]
       · simp only [hi, if_false]
-        refine ⟨trivial, ?_⟩
+        refine ⟨trivial, ?_, fun m hm => by cases hm⟩
         exact {
           handlers := h.handlers, count := h.count, levels := h.levels, minLevel := h.minLevel,
           actInv := h.actInv, act := h.act, actNone := h.actNone, cache := h.cache,
@@ -603,10 +629,12 @@ theorem resolveLevel_sim {c : Core} {s : SState} (h : Sim c s) (lv : LevelArg) :
               omega
             · have : (LKey.int j == LKey.int i) = false := by simp [hji]
               rw [this] at hj
-              exact h.lkInt j no hj }
+              exact h.lkInt j no hj
+          pcInv := h.pcInv }
 
-theorem logTail_sim (orc : Oracle) {c : Core} {s : SState} (h : Sim c s) (no : Int) (M : Option Str) (lazy : Bool) :
-    (logTail orc c no M lazy).2 = sLogTail orc s no M lazy ∧ Sim (logTail orc c no M lazy).1 s := by
+theorem logTail_sim (orc : Oracle) {c : Core} {s : SState} (h : Sim c s) {lid : Option Str} (hlid : LidOk c lid)
+    (no : Int) (M : Option Str) (lazy : Bool) :
+    (logTail orc c lid no M lazy).2 = sLogTail orc s no M lazy ∧ Sim (logTail orc c lid no M lazy).1 s := by
   unfold logTail sLogTail
   have hadm : belowMin no c.minLevel = !(admitted s no) := by
     rw [h.minLevel, belowMin_minOf, h.handlers]
@@ -622,7 +650,7 @@ theorem logTail_sim (orc : Oracle) {c : Core} {s : SState} (h : Sim c s) (no : I
       simp only at this
       rw [← this]
       cases st with
-      | true => simp [h, emitAll_eq orc h.handlers]
+      | true => simp [h, emitAll_eq orc h.handlers h.pcInv hlid]
       | false => simp [h]
     | none =>
       have hscan : scan c M = enabledS s.acts M := by
@@ -634,6 +662,7 @@ theorem logTail_sim (orc : Oracle) {c : Core} {s : SState} (h : Sim c s) (no : I
       have hsim : Sim { c with enabled := (M, enabledS s.acts M) :: c.enabled } s :=
         { handlers := h.handlers, count := h.count, levels := h.levels, minLevel := h.minLevel,
           actInv := h.actInv, act := h.act, actNone := h.actNone, lkName := h.lkName, lkInt := h.lkInt,
+          pcInv := h.pcInv,
           cache := fun e he => by
             rcases List.mem_cons.mp he with rfl | he
             · rfl
@@ -642,7 +671,7 @@ theorem logTail_sim (orc : Oracle) {c : Core} {s : SState} (h : Sim c s) (no : I
       | true =>
         simp only [if_true]
         rw [hE] at hsim
-        exact ⟨by rw [emitAll_eq orc (s := s) (by exact h.handlers)], hsim⟩
+        exact ⟨by rw [emitAll_eq orc (s := s) (by exact h.handlers) hsim.pcInv hlid], hsim⟩
       | false =>
         rw [hE] at hsim
         simp [hsim]
@@ -664,19 +693,31 @@ theorem log_sim (orc : Oracle) {c : Core} {s : SState} (h : Sim c s) (lv : Level
       rw [hres] at hr
       simp only at hr
       simp only [hr.1]
-      exact logTail_sim orc hr.2 r.2 M lazy
+      exact logTail_sim orc hr.2.1 hr.2.2 r.2.2 M lazy
+
+theorem lookup_isSome_mem_keys {l : List (Str × Int)} {n : Str} (h : (l.lookup n).isSome = true) :
+    n ∈ l.map (·.1) := by
+  induction l with
+  | nil => simp at h
+  | cons x xs ih =>
+    rw [List.lookup_cons] at h
+    by_cases hx : n = x.1
+    · subst hx; simp
+    · have : (n == x.1) = false := by simp [hx]
+      rw [this] at h
+      exact List.mem_cons_of_mem _ (ih h)
 
 theorem add_sim {c : Core} {s : SState} (h : Sim c s) (a : AddArgs) :
     (add c a).2 = (sAdd s a).2 ∧ Sim (add c a).1 (sAdd s a).1 := by
-  rcases c with ⟨hs, cnt, ml, en, al, an, lv, lk⟩
+  rcases c with ⟨hs, cnt, ml, en, al, an, lv, lk, pc⟩
   rcases s with ⟨slv, nid, regs, acts⟩
-  obtain ⟨h1, h2, h3, h4, h5, h6, h7, h8, h9, h10⟩ := h
-  simp only at h1 h2 h3 h4 h5 h6 h7 h8 h9 h10
+  obtain ⟨h1, h2, h3, h4, h5, h6, h7, h8, h9, h10, h11⟩ := h
+  simp only at h1 h2 h3 h4 h5 h6 h7 h8 h9 h10 h11
   subst h1 h2 h3
   unfold add sAdd
   simp only
-  have hbump : Sim ⟨hs, cnt + 1, ml, en, al, an, lv, lk⟩ ⟨lv, cnt + 1, hs, acts⟩ :=
-    ⟨rfl, rfl, rfl, h4, h5, h6, h7, h8, h9, h10⟩
+  have hbump : Sim ⟨hs, cnt + 1, ml, en, al, an, lv, lk, pc⟩ ⟨lv, cnt + 1, hs, acts⟩ :=
+    ⟨rfl, rfl, rfl, h4, h5, h6, h7, h8, h9, h10, h11⟩
   cases mkFilter lv a.filter with
   | error e => exact ⟨rfl, hbump⟩
   | ok f =>
@@ -686,22 +727,30 @@ theorem add_sim {c : Core} {s : SState} (h : Sim c s) (a : AddArgs) :
       refine ⟨rfl, ?_⟩
       exact ⟨rfl, rfl, rfl, by
                 simp only [List.map_append, List.map_cons, List.map_nil]
-                rw [h4, minAdd_minOf], h5, h6, h7, h8, h9, h10⟩
+                rw [h4, minAdd_minOf], h5, h6, h7, h8, h9, h10, by
+                intro e he n hn
+                by_cases hc : a.colorize = true
+                · simp only [hc, if_true, List.mem_cons] at he
+                  rcases he with rfl | he
+                  · exact lookup_isSome_mem_keys hn
+                  · exact h11 e he n hn
+                · simp only [hc, Bool.false_eq_true, if_false] at he
+                  exact h11 e he n hn⟩
 
 theorem remove_sim (orc : Oracle) {c : Core} {s : SState} (h : Sim c s) (id : Int) :
     (remove c id).2 = (sPrim orc s (.remove id)).2 ∧ Sim (remove c id).1 (sPrim orc s (.remove id)).1 := by
-  rcases c with ⟨hs, cnt, ml, en, al, an, lv, lk⟩
+  rcases c with ⟨hs, cnt, ml, en, al, an, lv, lk, pc⟩
   rcases s with ⟨slv, nid, regs, acts⟩
-  obtain ⟨h1, h2, h3, h4, h5, h6, h7, h8, h9, h10⟩ := h
-  simp only at h1 h2 h3 h4 h5 h6 h7 h8 h9 h10
+  obtain ⟨h1, h2, h3, h4, h5, h6, h7, h8, h9, h10, h11⟩ := h
+  simp only at h1 h2 h3 h4 h5 h6 h7 h8 h9 h10 h11
   subst h1 h2 h3
   unfold remove sPrim
   simp only
   split
   · cases hs.find? (fun h => h.1 == id.toNat) with
-    | some hd => exact ⟨rfl, ⟨rfl, rfl, rfl, rfl, h5, h6, h7, h8, h9, h10⟩⟩
-    | none => exact ⟨rfl, ⟨rfl, rfl, rfl, h4, h5, h6, h7, h8, h9, h10⟩⟩
-  · exact ⟨rfl, ⟨rfl, rfl, rfl, h4, h5, h6, h7, h8, h9, h10⟩⟩
+    | some hd => exact ⟨rfl, ⟨rfl, rfl, rfl, rfl, h5, h6, h7, h8, h9, h10, h11⟩⟩
+    | none => exact ⟨rfl, ⟨rfl, rfl, rfl, h4, h5, h6, h7, h8, h9, h10, h11⟩⟩
+  · exact ⟨rfl, ⟨rfl, rfl, rfl, h4, h5, h6, h7, h8, h9, h10, h11⟩⟩
 
 theorem filter_ne_head (h : Nat × Handler) (t : List (Nat × Handler))
     (hp : (h :: t).Pairwise (fun a b => a.1 < b.1)) : (h :: t).filter (fun x => x.1 != h.1) = t := by
@@ -723,7 +772,7 @@ theorem removeLoop_spec : ∀ (l : List (Nat × Handler)) (c : Core), c.handlers
   induction l with
   | nil =>
     intro c hc _ hm
-    rcases c with ⟨hs, cnt, ml, en, al, an, lv, lk⟩
+    rcases c with ⟨hs, cnt, ml, en, al, an, lv, lk, pc⟩
     simp only at hc hm
     subst hc hm
     rfl
@@ -742,33 +791,43 @@ theorem removeLoop_spec : ∀ (l : List (Nat × Handler)) (c : Core), c.handlers
 theorem removeAll_sim (orc : Oracle) {c : Core} {s : SState} (h : Sim c s)
     (hp : s.regs.Pairwise (fun a b => a.1 < b.1)) :
     (removeAll c).2 = (sPrim orc s .removeAll).2 ∧ Sim (removeAll c).1 (sPrim orc s .removeAll).1 := by
-  rcases c with ⟨hs, cnt, ml, en, al, an, lv, lk⟩
+  rcases c with ⟨hs, cnt, ml, en, al, an, lv, lk, pc⟩
   rcases s with ⟨slv, nid, regs, acts⟩
-  obtain ⟨h1, h2, h3, h4, h5, h6, h7, h8, h9, h10⟩ := h
-  simp only at h1 h2 h3 h4 h5 h6 h7 h8 h9 h10 hp
+  obtain ⟨h1, h2, h3, h4, h5, h6, h7, h8, h9, h10, h11⟩ := h
+  simp only at h1 h2 h3 h4 h5 h6 h7 h8 h9 h10 h11 hp
   subst h1 h2 h3
   unfold removeAll sPrim
   simp only
   rw [removeLoop_spec hs _ rfl hp h4]
-  exact ⟨rfl, ⟨rfl, rfl, rfl, rfl, h5, h6, h7, h8, h9, h10⟩⟩
+  exact ⟨rfl, ⟨rfl, rfl, rfl, rfl, h5, h6, h7, h8, h9, h10, h11⟩⟩
 
 theorem level_sim (orc : Oracle) {c : Core} {s : SState} (h : Sim c s) (name : Str) (no : NoArg) (other : Bool) :
     (levelOp c name no other).2 = (sPrim orc s (.level name no other)).2 ∧
     Sim (levelOp c name no other).1 (sPrim orc s (.level name no other)).1 := by
-  rcases c with ⟨hs, cnt, ml, en, al, an, lv, lk⟩
+  rcases c with ⟨hs, cnt, ml, en, al, an, lv, lk, pc⟩
   rcases s with ⟨slv, nid, regs, acts⟩
-  obtain ⟨h1, h2, h3, h4, h5, h6, h7, h8, h9, h10⟩ := h
-  simp only at h1 h2 h3 h4 h5 h6 h7 h8 h9 h10
+  obtain ⟨h1, h2, h3, h4, h5, h6, h7, h8, h9, h10, h11⟩ := h
+  simp only at h1 h2 h3 h4 h5 h6 h7 h8 h9 h10 h11
   subst h1 h2 h3
   unfold levelOp sPrim
   simp only
   cases levelDecision lv name no other with
-  | error e => exact ⟨rfl, ⟨rfl, rfl, rfl, h4, h5, h6, h7, h8, h9, h10⟩⟩
+  | error e => exact ⟨rfl, ⟨rfl, rfl, rfl, h4, h5, h6, h7, h8, h9, h10, h11⟩⟩
   | ok d =>
     cases d with
-    | none => exact ⟨rfl, ⟨rfl, rfl, rfl, h4, h5, h6, h7, h8, h9, h10⟩⟩
+    | none => exact ⟨rfl, ⟨rfl, rfl, rfl, h4, h5, h6, h7, h8, h9, h10, h11⟩⟩
     | some n =>
-      refine ⟨rfl, ⟨rfl, rfl, rfl, h4, h5, h6, h7, h8, ?_, ?_⟩⟩
+      refine ⟨rfl, ⟨rfl, rfl, rfl, h4, h5, h6, h7, h8, ?_, ?_, ?_⟩⟩
+      rotate_left 2
+      · intro e he m hm
+        simp only [List.mem_map] at he
+        obtain ⟨e0, he0, rfl⟩ := he
+        simp only [List.lookup_cons] at hm
+        by_cases hmn : m = name
+        · subst hmn; exact List.mem_cons_self
+        · have : (m == name) = false := by simp [hmn]
+          rw [this] at hm
+          exact List.mem_cons_of_mem _ (h11 e0 he0 m hm)
       · intro m
         simp only [List.lookup_cons]
         have : (LKey.name m == LKey.name name) = (m == name) := by rw [Bool.eq_iff_iff]; simp
@@ -795,7 +854,7 @@ theorem activate_sim {c : Core} {s : SState} (h : Sim c s) (name : Option Str) (
               cases k with
               | none => simp [enabledS, relevant]
               | some n => simpa [enabledS, relevant] using this
-            lkName := h.lkName, lkInt := h.lkInt }
+            lkName := h.lkName, lkInt := h.lkInt, pcInv := h.pcInv }
   | some p =>
     exact { handlers := h.handlers, count := h.count, levels := h.levels, minLevel := h.minLevel,
             actInv := by
@@ -822,7 +881,7 @@ theorem activate_sim {c : Core} {s : SState} (h : Sim c s) (name : Option Str) (
                   simp only [hf, Bool.false_eq_true, if_false]
                   rw [enabledS_cons_some, if_neg hp]
                   exact this
-            lkName := h.lkName, lkInt := h.lkInt }
+            lkName := h.lkName, lkInt := h.lkInt, pcInv := h.pcInv }
 
 /-! ### ids: fresh and increasing (I5) -/
 
